@@ -370,7 +370,7 @@ def run(ctx):
         for i, p in enumerate(sorted(glob.glob(os.path.join(vlib.VERIF, "corpus", "C11", "*.tsv")))):
             pol = " -policy wait_compact" if os.path.basename(p).startswith("wc-") else ""
             jobs.append(("corpus-" + os.path.basename(p)[:-4], "-replay %s -port %d%s" % (p, pbase + 3 * len(jobs), pol)))
-        nproc, n = (4, 4000) if quick else (12, 25000)
+        nproc, n = (4, 4000) if quick else (12, 20000)
         for i in range(nproc):
             eng = "mem" if (quick or i % 3 != 2) else "pebble"
             pol = "wait_compact" if i % 2 == 1 else "local_deletion"
